@@ -651,7 +651,7 @@ def run(rep, tier):
 
     mark('refined_values')
     # ---- X-path
-    nscripts = 220 if tier == "quick" else 6000
+    nscripts = 220 if tier == "quick" else 2000
     scripts = list(CORPUS) + [gen_script(r, tier) for _ in range(nscripts)]
     if tier == "quick":
         impl = [impl_script(sc) for sc in scripts]
